@@ -599,6 +599,20 @@ func ruleGenesisInit(c *Ctx) {
 		if !ok {
 			return "the fork value is not a keyed literal", false
 		}
+		// a field set from another field of the value under construction (f.PreviousVersion = f.CurrentVersion) is
+		// what that field was set to
+		if id, ok := ast.Unparen(s.call.Args[0]).(*ast.Ident); ok {
+			o := s.env.info.Uses[id]
+			for round := 0; round < 3; round++ {
+				for k, v := range m {
+					if sel, ok := ast.Unparen(v).(*ast.SelectorExpr); ok {
+						if b, ok := ast.Unparen(sel.X).(*ast.Ident); ok && o != nil && s.env.info.Uses[b] == o && m[sel.Sel.Name] != nil && sel.Sel.Name != k {
+							m[k] = m[sel.Sel.Name]
+						}
+					}
+				}
+			}
+		}
 		for _, k := range []string{"PreviousVersion", "CurrentVersion"} {
 			if m[k] == nil || fr.constName(m[k]) != "GENESIS_FORK_VERSION" {
 				return "genesis fork is not {GENESIS_FORK_VERSION, GENESIS_FORK_VERSION, GENESIS_EPOCH}: " + k, true
